@@ -42,25 +42,47 @@ def build_overlay(m):
     return ov
 
 
-def run(prop, seed=0):
+def _one(args):
+    prop, idx, base_keys = args
+    from .check import run_property
+    m = CATALOGUE[prop][idx]
+    ov = build_overlay(m)
+    if ov is None:
+        return (idx, "skipped", [], None)
+    try:
+        rc, run_ = run_property(prop, tier="quick", program=Program(overlay=ov), write=False, quiet=True)
+        new = sorted({f.full_key for f in run_.findings} - set(base_keys))
+        err = None
+    except AnalysisError as ex:
+        new, err = [], str(ex)
+    except Exception as ex:  # a crash of the analysis on a mutant is a checker defect
+        new, err = [], "internal error: %r" % (ex,)
+    return (idx, "ran", new, err)
+
+
+def run(prop, seed=0, jobs=None):
+    import multiprocessing
+    import os
     from .check import run_property
     from .rules import load_all
     load_all()
     t0 = time.time()
     out = {"mutants": 0, "caught": 0, "twins": 0, "silent": 0, "skipped": [], "failed": [], "cases": []}
+    cat = CATALOGUE.get(prop, [])
+    if not cat:
+        out["wall_s"] = 0.0
+        return out
     base_rc, base_run = run_property(prop, tier="quick", write=False, quiet=True)
-    base_keys = {f.full_key for f in base_run.findings}
-    for m in CATALOGUE.get(prop, []):
-        ov = build_overlay(m)
-        if ov is None:
+    base_keys = sorted({f.full_key for f in base_run.findings})
+    jobs = jobs or min(16, os.cpu_count() or 4, len(cat))
+    ctx = multiprocessing.get_context("fork")
+    with ctx.Pool(jobs) as pool:
+        results = pool.map(_one, [(prop, i, base_keys) for i in range(len(cat))], chunksize=1)
+    for idx, status, new, err in results:
+        m = cat[idx]
+        if status == "skipped":
             out["skipped"].append(m.name)
             continue
-        try:
-            rc, run_ = run_property(prop, tier="quick", program=Program(overlay=ov), write=False, quiet=True)
-            new = sorted({f.full_key for f in run_.findings} - base_keys)
-            err = None
-        except AnalysisError as ex:
-            new, err = [], str(ex)
         if m.expect is None:
             out["twins"] += 1
             if new or err:
@@ -77,3 +99,18 @@ def run(prop, seed=0):
         out["cases"].append({"name": m.name, "kind": "twin" if m.expect is None else "mutant", "new_findings": new[:3], "error": err})
     out["wall_s"] = round(time.time() - t0, 2)
     return out
+
+
+if __name__ == "__main__":
+    import json
+    import os
+    import sys
+    sys.path.insert(0, os.path.dirname(os.path.dirname(os.path.abspath(__file__))))
+    from sa.rules import load_all
+    load_all()
+    from sa import mutants as _m
+    for prop in sys.argv[1:] or sorted(_m.CATALOGUE):
+        r = _m.run(prop)
+        print(prop, "mutants %d caught %d | twins %d silent %d | skipped %s | %.1fs" % (r["mutants"], r["caught"], r["twins"], r["silent"], r["skipped"], r["wall_s"]))
+        for f in r["failed"]:
+            print("   FAILED", json.dumps(f)[:600])
